@@ -1,4 +1,5 @@
 import argparse
+import asyncio
 import importlib
 import os
 import sys
@@ -35,13 +36,25 @@ def main():
     except ValueError:
         seed = 20260930
     ctx = core.Ctx(a.prop, tier, seed)
+    # watchdog: a check that does not terminate (e.g. code under test that waits for ever) fails closed
+    import signal
+    limit = int(os.environ.get('VERIF_WATCHDOG_S', '2400' if tier == 'quick' else '14400'))
+
+    def on_alarm(_sig, _frm):
+        ctx.broken = getattr(ctx, 'broken', []) + [f'the check did not terminate within {limit} s (a coroutine of the code under test never completed?)']
+        rc = ctx.finish()
+        sys.stdout.flush()
+        sys.stderr.flush()
+        os._exit(rc)
+    signal.signal(signal.SIGALRM, on_alarm)
+    signal.alarm(limit)
     try:
         mod = importlib.import_module(f'harness.{a.prop}')
         if a.replay:
             rc = mod.replay(ctx, a.replay)
         else:
             rc = mod.run(ctx)
-    except Exception:   # fail closed: a crashing check is a violation without a witness
+    except (Exception, asyncio.CancelledError):   # fail closed: a crashing check is a violation without a witness
         tb = traceback.format_exc()
         sys.stderr.write(tb)
         ctx.broken = getattr(ctx, 'broken', []) + ['check crashed: ' + tb[-1500:]]
